@@ -75,6 +75,21 @@ fn main() {
                 (Some("bersim"), Some("C12")) => {
                     campaign::replay_file(&body, path, &|c, o| c12::oracle_c12(c, o))
                 }
+                (Some("bersim-repeated-ebn0"), Some("C12")) => {
+                    let l: Vec<f32> = body["config"]["ebn0s_db"].as_array().map(|a| a.iter().filter_map(|x| x.as_f64().map(|y| y as f32)).collect()).unwrap_or_default();
+                    let sd: u64 = body["config"]["probe_seed"].as_str().and_then(|x| x.parse().ok()).unwrap_or(0);
+                    match c12::repeated_ebn0_probe(&l, sd) {
+                        Some(x) => {
+                            println!("VIOLATION property=C12 replay={}", path);
+                            println!("  kind={} detail={}", x.kind, x.detail);
+                            std::process::exit(1)
+                        }
+                        None => {
+                            println!("NOT-REPRODUCED property=C12 replay={}", path);
+                            std::process::exit(0)
+                        }
+                    }
+                }
                 (Some("bersim-long-frame"), Some("C12")) => {
                     let lc = c12::LongCfg::from_json(&body["config"]).unwrap_or_else(|| harness_error("bad long-frame replay"));
                     match c12::long_frame_probe(&lc) {
